@@ -324,9 +324,21 @@ def _ref_load(ast, resources, main_url, packages, env, sm):
             if pkg not in packages:
                 raise _Reject("import-unknown-package", lineno, url, promised=False)
             before = set(sm.types)
-            import_package(sm, packages[pkg])
+
+            def do_import(name):
+                if name in imported_pkgs or name in (ast.get("imports") or []):
+                    return
+                if name not in packages:
+                    raise _Reject("import-unknown-package", lineno, url, promised=False)
+                imported_pkgs.add(name)
+                for dep in packages[name].get("imports", []):
+                    do_import(dep[0] if isinstance(dep, (list, tuple)) else dep)
+                try:
+                    import_package(sm, packages[name])
+                except KeyError:
+                    raise _Reject("import-broken-component", lineno, url, promised=False)
+            do_import(pkg)
             imported_types |= set(sm.types) - before
-            imported_pkgs.add(pkg)
             continue
         if kind == "key":
             key, value, lineno, url = ev[1], ev[2], ev[3], ev[4]
